@@ -29,6 +29,17 @@ def _setup_repo(repo):
 _G = {}
 
 
+def _p(*a):
+    """print that survives a closed pipe (./check ... | head): the exit status must still be the verdict"""
+    try:
+        print(*a, flush=True)
+    except BrokenPipeError:
+        try:
+            sys.stdout = open(os.devnull, "w")
+        except OSError:
+            pass
+
+
 def _worker(task):
     prop, subname, tier, seed, shard, nshards = task
     core = _G["core"]
@@ -126,7 +137,7 @@ def main(argv=None):
         with core.quiet():
             mod = importlib.import_module("vt.props." + prop.lower())
     except Exception:
-        print("HARNESS-ERROR: cannot import check module for %s\n%s" % (prop, traceback.format_exc()))
+        _p("HARNESS-ERROR: cannot import check module for %s\n%s" % (prop, traceback.format_exc()))
         return 2
     _G["core"], _G["mod"] = core, mod
     known = core.known_keys(prop)
@@ -136,16 +147,16 @@ def main(argv=None):
         try:
             rec, bad = _replay_one(core, mod, a.replay)
         except core.HarnessError as e:
-            print("HARNESS-ERROR: %s" % e)
+            _p("HARNESS-ERROR: %s" % e)
             return 2
         if bad is None:
-            print("replay %s: property holds on this case" % a.replay)
+            _p("replay %s: property holds on this case" % a.replay)
             return 0
         if bad[0] in known:
-            print("KNOWN-FINDING: property=%s %s" % (prop, known[bad[0]]["what"]))
+            _p("KNOWN-FINDING: property=%s %s" % (prop, known[bad[0]]["what"]))
             return 0
-        print("replay %s: %s: %s" % (a.replay, bad[0], bad[1]))
-        print("VIOLATION property=%s replay=%s" % (prop, a.replay))
+        _p("replay %s: %s: %s" % (a.replay, bad[0], bad[1]))
+        _p("VIOLATION property=%s replay=%s" % (prop, a.replay))
         return 1
 
     violations = []       # (key, msg, path)
@@ -269,30 +280,30 @@ def main(argv=None):
             json.dump(core.jsonable(ev), f, indent=1, sort_keys=True)
 
     # ---- report --------------------------------------------------------------------------------
-    print("%s tier=%s seed=%d: %d evaluations (%d distinct non-trivial, %d undefined-domain, %d replayed) in %.1fs" % (
+    _p("%s tier=%s seed=%d: %d evaluations (%d distinct non-trivial, %d undefined-domain, %d replayed) in %.1fs" % (
         prop, a.tier, seed, total.evaluations, len(total.nontrivial), total.undefined, n_replayed, wall))
     for n, b in breakdown.items():
         if "evaluations" not in b:
-            print("  %-28s %s" % (n, b))
+            _p("  %-28s %s" % (n, b))
             continue
         if n.startswith("fuzz:"):
-            print("  %-28s eval=%-8d nontrivial=%-7d executions=%s coverage-edges=%s features=%s" % (
+            _p("  %-28s eval=%-8d nontrivial=%-7d executions=%s coverage-edges=%s features=%s" % (
                 n, b["evaluations"], b["distinct_nontrivial"], b.get("executions"), b.get("cov"), b.get("ft")))
             continue
-        print("  %-28s eval=%-8d nontrivial=%-7d known=%s classes=%s" % (
+        _p("  %-28s eval=%-8d nontrivial=%-7d known=%s classes=%s" % (
             n, b["evaluations"], b["distinct_nontrivial"], b["known_excluded"] or "-",
             dict(sorted(b["classes"].items())) or "-"))
     for k in sorted(known_seen):
         if k in known:
-            print("KNOWN-FINDING: property=%s %s [key=%s, %d cases]" % (prop, known[k]["what"], k, known_seen[k]))
+            _p("KNOWN-FINDING: property=%s %s [key=%s, %d cases]" % (prop, known[k]["what"], k, known_seen[k]))
     if errors:
         for e in errors:
-            print("HARNESS-ERROR: %s" % e)
+            _p("HARNESS-ERROR: %s" % e)
         return 2
     if violations:
         for k, m, p in violations:
-            print("  violation %s: %s" % (k, m[:300]))
-            print("VIOLATION property=%s replay=%s" % (prop, p))
+            _p("  violation %s: %s" % (k, m[:300]))
+            _p("VIOLATION property=%s replay=%s" % (prop, p))
         return 1
     return 0
 
